@@ -1251,11 +1251,251 @@ def gen_products(rng):
     return dict(kind='products', request=req, streams=streams, inputs=inputs, N=rng.randint(2, 4), F=rng.choice([1, 2, 4]))
 
 
+# ------------------------------------------------------------------ (O) whole data sets opened with applycal=...
+
+def wire_tel(tel):
+    return [[codes(st['name']), codes(st['type'] or ''), [codes(t) for t in (st['targets'] or [])],
+             [codes(a + p) for p in st['pols'] for a in st['ants']], int(bool(st['spectral'])),
+             [codes(t) for t in st['types']]] for st in tel]
+
+
+def spec_opened(req, tel, archived, inputs):
+    """documented behaviour of a data set, independent of the Coq model: L1 = first archived sdp.cal stream (else
+    'cal'), L2 = the <stream>_<target>_selfcal substreams of the first archived imager stream with targets"""
+    by = {st['name']: st for st in tel}
+    cals = [n for n in archived if n in by and by[n]['type'] == 'sdp.cal']
+    l1 = cals[0] if cals else 'cal'
+    imgs = [n for n in archived if n in by and by[n]['type'] == 'sdp.continuum_image' and by[n]['targets']]
+    l2 = ['%s_%s_selfcal' % (imgs[0], t) for t in by[imgs[0]]['targets']] if imgs else []
+    streams = []
+    for alias, attrs_of, subs in (('l1', l1, [l1]), ('l2', l2[0] if l2 else None, l2)):
+        st = by.get(attrs_of)
+        if st is not None and st['ants'] and st['pols'] and st['spectral']:
+            streams.append(dict(alias=alias, ants=st['ants'], pols=st['pols'], spectral=True,
+                                sub_types=[by[n]['types'] if n in by else [] for n in subs]))
+    return [st['alias'] for st in streams], spec_products(req, streams, inputs)
+
+
+def isolate_templates():
+    """Each `opened` case must be a function of ITS data set only (a replay runs it alone): drop applycal templates an
+    earlier data set may have left in the module-level VIRTUAL_SENSORS (finding C14-F1; a no-op on fixed code).  What
+    one data set does to another is the business of check_two_sets."""
+    import katdal.visdatav4 as vd
+    for k in [k for k in vd.VIRTUAL_SENSORS if k.startswith('Calibration/')]:
+        del vd.VIRTUAL_SENSORS[k]
+
+
+def check_opened(ctx, case, v=None):
+    """katdal's VisibilityDataV4(applycal=request) on a synthetic telstate: stream discovery, registration, name
+    expansion and skipping / rejecting of missing products, observed at d.applycal_products"""
+    from fixtures import v4
+    from fixtures.c14streams import streams_hook
+    req = case['request'] if isinstance(case['request'], str) else list(case['request'])
+    own = v is None
+    if own:
+        v = v4.build_v4(T=case['T'], F=case['F'], ants=tuple(case['ants']), telstate_hook=streams_hook(case['tel']),
+                        archived_override=case['archived'], construct=False, tmp=v4.scratch_dir('c14'))
+    isolate_templates()
+    try:
+        try:
+            d = v4.reopen(v, open_kwargs=dict(applycal=req))
+            got = list(d.applycal_products)
+        except ValueError:
+            got = 'ValueError'
+        except KeyError:
+            got = 'KeyError'
+    finally:
+        if own:
+            v4.cleanup(v)
+    inputs = sorted(a + p for a in case['ants'] for p in 'hv')
+    mo = ctx.model([[141, [3, wire_req(req), wire_tel(case['tel']), [codes(n) for n in case['archived']],
+                           [codes(i) for i in inputs]]]])[0]
+    mreg = [''.join(chr(c) for c in s) for s in mo[0]]
+    mo, mspec = parse_outcome(mo[1]), parse_outcome(mo[2])
+    sreg, (want, expanded) = spec_opened(req, case['tel'], case['archived'], inputs)
+    form = request_form(req, sreg)
+    sig = 'kind=opened;form=%s;streams=%s;missing=%s' % (form, '+'.join(sreg) or 'none', missing_shape(expanded, want)
+                                                         if isinstance(want, list) else 'n/a')
+    if got != want or got != mspec:
+        ctx.disagree(sig + ';symptom=%s' % symptom(got, want), case, got, mo,
+                     'applycal_products of the opened data set are not the documented expansion of the request over '
+                     'the L1 / L2 streams of the data set with missing products skipped / rejected',
+                     spec=want if got != want else mspec)
+    if got != mo or mreg != sreg:
+        ctx.disagree(sig + ';symptom=%s' % (symptom(got, mo) if got != mo else 'registered_streams'), case, got,
+                     [mreg, mo], 'applycal_products differ from the model of _register_standard_cal_streams + '
+                     '_normalise_cal_products + calc_correction', kind='tie')
+    ctx.traces_validated += 1
+    ctx.note_case(('O', repr(case)), nontrivial=isinstance(want, list) and 0 < len(want) < len(set(expanded)),
+                  sample=case if req == 'all' and len(case['tel']) <= 2 else None)
+    ctx.count('opened:' + (want if isinstance(want, str) else 'applied'))
+    ctx.count('opened:streams=' + ('+'.join(sreg) or 'none'))
+
+
+def gen_tel(rng):
+    ants = ['m000', 'm001', 'm002'][:rng.randint(1, 2)]
+
+    def attrs(kind):
+        my_ants = list(ants)
+        r = rng.random()
+        if r < 0.1:
+            my_ants = []
+        elif r < 0.25 and len(my_ants) > 1:
+            my_ants.pop(rng.randrange(len(my_ants)))
+        if kind == 'cal':
+            types = ['K', 'B', 'G'] if rng.random() < 0.4 else [t for t in TYPES if rng.random() < 0.5]
+        else:
+            types = ['GPHASE'] if rng.random() < 0.4 else [t for t in TYPES if rng.random() < 0.4]
+        return dict(ants=my_ants, pols=['v', 'h'] if rng.random() < 0.8 else ['h', 'v'], spectral=rng.random() < 0.9,
+                    n_chans=rng.choice([1, 2]), types=types)
+    tel, archived = [], ['sdp_l0']
+    for name in rng.sample(['cal', 'cal2', 'calx'], rng.randint(0, 2)):
+        tel.append(dict(name=name, type='sdp.cal' if rng.random() < 0.85 else rng.choice([None, 'sdp.beamformer_engineering']),
+                        targets=None, **attrs('cal')))
+        if rng.random() < 0.85:
+            archived.append(name)
+    for name in rng.sample(['continuum_image', 'img2'], rng.choice([0, 1, 1, 2])):
+        targets = rng.sample(['A', 'B', 'Cee'], rng.choice([0, 1, 1, 2, 2]))
+        tel.append(dict(name=name, type='sdp.continuum_image' if rng.random() < 0.9 else 'sdp.spectral_image',
+                        targets=targets, targets_in_cb=rng.random() < 0.7, ants=[], pols=[], spectral=False,
+                        n_chans=1, types=[]))
+        shared = attrs('selfcal')          # self-cal runs on the same antennas / channels for every target
+        for t in targets:
+            if rng.random() < 0.9:
+                mine = attrs('selfcal')
+                tel.append(dict(name='%s_%s_selfcal' % (name, t), type=None, targets=None,
+                                **dict(shared, types=mine['types'] if rng.random() < 0.5 else shared['types'])))
+        if rng.random() < 0.9:
+            archived.append(name)
+    if rng.random() < 0.2:
+        archived.append('ghost')
+    rng.shuffle(archived)
+    return dict(tel=tel, archived=archived, ants=ants, T=3, F=2)
+
+
+def opened_requests(rng, n):
+    atoms = ['l1', 'l2', 'K', 'B', 'G', 'GPHASE', 'GAMP_PHASE'] + [s + '.' + t for s in ('l1', 'l2') for t in TYPES]
+    out = ['all']
+    while len(out) < n:
+        if rng.random() < 0.6:
+            out.append(rng.choice(P_REQUESTS))
+        else:
+            items = [rng.choice(atoms) for _ in range(rng.randint(1, 3))]
+            out.append(','.join(items) if rng.random() < 0.6 else items)
+    return out
+
+
+def run_opened(ctx, rng, n_sets, n_req):
+    from fixtures import v4
+    from fixtures.c14streams import streams_hook
+    for _ in range(n_sets):
+        base = gen_tel(rng)
+        v = v4.build_v4(T=base['T'], F=base['F'], ants=tuple(base['ants']), telstate_hook=streams_hook(base['tel']),
+                        archived_override=base['archived'], construct=False, tmp=v4.scratch_dir('c14'))
+        try:
+            for req in opened_requests(rng, n_req):
+                check_opened(ctx, dict(base, kind='opened', request=req), v)
+        finally:
+            v4.cleanup(v)
+
+
+# ------------------------------------------------------------------ (T) several data sets open in one process
+
+GTARGET = '%s, radec gaincal, 10:00:00.0, -30:00:00.0'
+
+
+def check_two_sets(ctx, case):
+    """Data sets opened one after the other and all kept open: each must behave as if it were alone — its
+    applycal_products, and its (lazily evaluated) L1 gain correction scaled by ITS OWN flux table / override."""
+    from fixtures import v4
+    from fixtures.c14streams import streams_hook
+    isolate_templates()
+    opened = []
+    try:
+        for cfg in case['sets']:
+            def hook(ts, cbid, stream, cfg=cfg):
+                streams_hook(cfg['tel'])(ts, cbid, stream)
+                if cfg['measured'] is not None:
+                    ts.view('cal')['measured_flux'] = {n: flux_float(None if f is None else Fr(f)) for n, f in cfg['measured']}
+            v = v4.build_v4(T=cfg['T'], F=cfg['F'], ants=tuple(cfg['ants']), telstate_hook=hook,
+                            targets=((0, GTARGET % cfg['target']),), archived_override=cfg['archived'],
+                            construct=False, tmp=v4.scratch_dir('c14'))
+            kw = dict(applycal=cfg['request'])
+            if cfg['overrides'] is None:
+                kw['gaincal_flux'] = None
+            else:
+                kw['gaincal_flux'] = {n: flux_float(None if f is None else Fr(f)) for n, f in cfg['overrides']}
+            try:
+                d = v4.reopen(v, open_kwargs=kw)
+                got = list(d.applycal_products)
+            except ValueError:
+                d, got = None, 'ValueError'
+            except KeyError:
+                d, got = None, 'KeyError'
+            opened.append((cfg, v, d, got))
+        for k, (cfg, v, d, got) in enumerate(opened):
+            which = 'first' if k == 0 else 'later'
+            inputs = sorted(a + p for a in cfg['ants'] for p in 'hv')
+            mo = ctx.model([[141, [3, wire_req(cfg['request']), wire_tel(cfg['tel']), [codes(n) for n in cfg['archived']],
+                                   [codes(i) for i in inputs]]]])[0]
+            mo = parse_outcome(mo[1])
+            if got != mo:
+                ctx.disagree('kind=two_sets;observed=%s;symptom=applied_products' % which, case, got, mo,
+                             'applycal_products of a data set depend on another data set opened in the same process')
+            if d is None:
+                continue
+            l1 = [st for st in cfg['tel'] if st['name'] == 'cal'][0]
+            inp = cfg['probe']
+            # the model of THIS data set: one solution 1/2 e^{0}, flux calibrated, interpolated, inverted
+            fcase = dict(measured=cfg['measured'] or [], overrides=cfg['overrides'], tdefs=[[cfg['target']]],
+                         per_dump=[0] * cfg['T'])
+            sols = [[['1/2', '0']]]
+            fm = ctx.model([wire_flux(fcase, sols, [0])])[0]
+            wsols = [None if not m[1] else [None if not e else [str(fq(e[0][0])), str(fq(e[0][1]))] for e in m[1][0]]
+                     for m in fm]
+            gm = ctx.model([[14, [4, cfg['T'], wire_sols(wsols, [0]), []]]])[0]
+            gm = [[parse_opv(e) for e in row] for row in gm]
+            try:
+                out = np.asarray(d.sensor['Calibration/Corrections/l1/G/' + inp])
+            except Exception as e:       # noqa: BLE001
+                out = None
+                err = repr(e)[:200]
+            if out is None or out.shape != (cfg['T'], 1) or not all(same(out[t, 0], gm[t][0]) for t in range(cfg['T'])):
+                ctx.disagree('kind=two_sets;observed=%s;symptom=%s' % (which, 'raises' if out is None else 'flux_scale'),
+                             case, err if out is None else show(out), show_m(itertools.chain(*gm)),
+                             'the L1 gain correction of a data set is not scaled by 1/sqrt(flux) from ITS OWN flux '
+                             'table / override once another data set has been opened in the same process')
+            ctx.traces_validated += 1
+    finally:
+        for _, v, _, _ in opened:
+            v4.cleanup(v)
+    ctx.note_case(('T', repr(case)), nontrivial=len(case['sets']) >= 2, sample=None)
+    ctx.count('two_sets')
+
+
+def gen_two_sets(rng):
+    sets = []
+    for k in range(rng.choice([2, 2, 3])):
+        ants = ['m000', 'm001'][:rng.randint(1, 2)]
+        target = rng.choice(NAMES[:2])
+        fl = [f for f in FLUXES if f is not None and f > 0 and f != 1]
+        measured = None if rng.random() < 0.25 else [[target, str(rng.choice(fl))]]
+        r = rng.random()
+        overrides = None if r < 0.35 else [] if r < 0.7 else [[target, str(rng.choice(fl))]]
+        tel = [dict(name='cal', type='sdp.cal', targets=None, ants=list(ants), pols=['v', 'h'], spectral=True,
+                    n_chans=rng.choice([1, 2]), types=['K', 'B', 'G'] if rng.random() < 0.7 else ['G'])]
+        sets.append(dict(tel=tel, archived=['sdp_l0', 'cal'], ants=ants, T=3, F=2, target=target, measured=measured,
+                         overrides=overrides, probe=rng.choice(ants) + rng.choice('hv'),
+                         request=rng.choice(['', '', 'l1.K', 'K', 'B']) if k == 0 else rng.choice(['', 'all', 'l1', 'G', 'l1.G'])))
+    return dict(kind='two_sets', sets=sets)
+
+
 # ------------------------------------------------------------------ driver
 
 CHECKS = {'unwrap': lambda ctx, c: check_unwrap(ctx, [Fr(p) for p in c['phases']]), 'cinterp': check_cinterp,
           'delay': check_delay, 'bandpass': check_bandpass, 'gain': check_gain, 'flux': check_flux,
           'stitch': check_stitch, 'e2e': check_end_to_end, 'select': check_select, 'products': check_products,
+          'opened': check_opened, 'two_sets': check_two_sets,
           'normalise': lambda ctx, c: check_normalise(ctx, c['request'] if isinstance(c['request'], str)
                                                       else list(c['request']), c['streams'])}
 
@@ -1290,6 +1530,9 @@ def run(ctx):
         check_select(ctx, gen_select(rng))
     for _ in range(ctx.scale(400, 6000)):
         check_products(ctx, gen_products(rng))
+    run_opened(ctx, rng, ctx.scale(25, 300), 6)
+    for _ in range(ctx.scale(12, 150)):
+        check_two_sets(ctx, gen_two_sets(rng))
     for streams in STREAM_SETS:
         for req in normalise_cases(ctx):
             check_normalise(ctx, req, streams)
